@@ -23,7 +23,7 @@ type c11Case struct {
 	Script []impl.Answer `json:"script"`
 	API    string        `json:"api"`    // parse | interpret | unmarshal
 	TokBuf int           `json:"tokbuf"` // 0 = as in the source
-	Bound  int           `json:"bound"` // preemption bound; -1: all interleavings (state-key pruning)
+	Bound  int           `json:"bound"`  // preemption bound; -1: all interleavings (state-key pruning)
 }
 
 func (c *c11Case) Key() string {
